@@ -223,6 +223,30 @@ struct Env {
     }
 };
 
+// ---------------------------------------------------------------------------------------------
+// instance registry of the tracked event classes (C20): every construction / destruction of an event
+// object of a tracked class goes through here, whoever performs it (the library's queues included)
+struct EvRegistry {
+    std::map<const void*, int32_t> live;
+    long constructed = 0, destroyed = 0, errors = 0;
+    std::string first_error;
+    void reset() { live.clear(); constructed = destroyed = errors = 0; first_error.clear(); }
+    void error(const char* what, const void* p) {
+        if (!errors) { char b[96]; snprintf(b, sizeof b, "%s at %p", what, p); first_error = b; }
+        ++errors;
+    }
+    void ctor(const void* p, int32_t occ) {
+        ++constructed;
+        if (!live.emplace(p, occ).second) error("construction over a live instance", p);
+    }
+    void dtor(const void* p) {
+        ++destroyed;
+        if (!live.erase(p)) error("destruction of an object that is not alive (double destroy / never constructed)", p);
+    }
+    bool is_live(const void* p) const { return live.count(p) != 0; }
+};
+EvRegistry& registry();
+
 Env& env(); // the Env the currently running machine (real or model) talks to
 void set_env(Env* e);
 
